@@ -8,6 +8,7 @@ import (
 	"os"
 	"os/exec"
 	"path/filepath"
+	"runtime/debug"
 	"runtime/pprof"
 	"sort"
 	"strconv"
@@ -17,6 +18,7 @@ import (
 )
 
 func main() {
+	debug.SetGCPercent(400)
 	if len(os.Args) < 2 {
 		fmt.Fprintln(os.Stderr, "usage: gosym check <PROP> [--tier quick|thorough] | worker ... | list")
 		os.Exit(2)
